@@ -258,3 +258,85 @@ def probe_entries(out, shim):
         n = vs["name"]
         body += '    v.push(json!({"ev": "rt.vertex_struct", "struct": %s, "attrs": m::%s::VERTEX_ATTRIBUTES.iter().map(|a| json!({"format": format!("{:?}", a.format), "offset": a.offset as i64, "location": a.shader_location as i64, "size": a.format.size() as i64})).collect::<Vec<_>>(), "layout": bufs(&[m::%s::vertex_buffer_layout(wgpu::VertexStepMode::Instance)]), "size_of": std::mem::size_of::<m::%s>() as i64}));\n' % (rust_str(n), n, n, n)
     return HEAD + body + TAIL
+
+
+# ------------------------------------------------------------------ C10: encase byte images
+SENT = {"f32": lambda k: ("f32", "(%d.0f32 + 1000.0f32)" % k), "u32": lambda k: ("u32", "(0xA5000000u32 + %du32)" % k),
+        "i32": lambda k: ("i32", "(0x5A000000i32 + %di32)" % k), "f64": lambda k: ("f64", "(%d.0f64 + 1.0e9f64)" % k)}
+
+
+def _struct(S, name):
+    return [d for d in S["structs"] if d["name"] == name][0]
+
+
+def _components(S, t, off_expr, val_expr, out):
+    """append (rust byte offset expression, scalar) for every scalar component of t in WGSL order.
+    off_expr: Rust expression of the byte offset of the value inside the zeroed root; val_expr: place expression of the value"""
+    k = t["k"]
+    if k in ("scalar", "atomic"):
+        out.append((off_expr, t["s"]))
+    elif k == "vec":
+        sz = 8 if t["s"] == "f64" else 4
+        for i in range(t["n"]):
+            out.append(("%s + %d" % (off_expr, i * sz), t["s"]))
+    elif k == "mat":
+        sz = 8 if t["s"] == "f64" else 4
+        for f in range(t["c"] * t["r"]):
+            out.append(("%s + %d" % (off_expr, f * sz), t["s"]))
+    elif k == "array":
+        for i in range(t["n"]):
+            _components(S, t["e"], "%s + %d * esz(&%s)" % (off_expr, i, val_expr), "%s[%d]" % (val_expr, i), out)
+    elif k == "struct":
+        d = _struct(S, t["name"])
+        for m in d["members"]:
+            if m.get("io", {}).get("k") == "builtin":
+                continue
+            _components(S, m["ty"], "%s + std::mem::offset_of!(m::%s, %s)" % (off_expr, d["name"], m["name"]), "%s.%s" % (val_expr, m["name"]), out)
+
+
+def probe_encase(S, struct_names, uniform_structs=()):
+    body = ("    fn esz<T, const N: usize>(_: &[T; N]) -> usize { std::mem::size_of::<T>() }\n"
+            "    fn elem_of<T>(_: *const Vec<T>) -> std::mem::MaybeUninit<T> { std::mem::MaybeUninit::zeroed() }\n"
+            "    fn find(hay: &[u8], needle: &[u8]) -> Vec<i64> { let mut r = vec![]; if needle.len() <= hay.len() { for i in 0..=(hay.len() - needle.len()) { if &hay[i..i + needle.len()] == needle { r.push(i as i64); } } } r }\n")
+    for name in struct_names:
+        d = _struct(S, name)
+        members = [m for m in d["members"] if m.get("io", {}).get("k") != "builtin"]
+        tail_rt = bool(members) and members[-1]["ty"]["k"] == "rtarray"
+        for kk in ([0, 1, 3] if tail_rt else [None]):
+            body += "    {\n        let mut mu = std::mem::MaybeUninit::<m::%s>::zeroed();\n        let root = mu.as_mut_ptr() as *mut u8;\n" % name
+            # v0 is only used to name array element types (esz); the zeroed Vec field is never read
+            body += "        let v0: &m::%s = unsafe { &*(mu.as_ptr()) };\n" % name
+            comps = []
+            for m in (members[:-1] if tail_rt else members):
+                _components(S, m["ty"], "std::mem::offset_of!(m::%s, %s)" % (name, m["name"]), "v0.%s" % m["name"], comps)
+            pats = []
+            sid = 1
+            for off, sc in comps:
+                ty, val = SENT[sc](sid)
+                body += "        unsafe { std::ptr::write_unaligned(root.add(%s) as *mut %s, %s); }\n" % (off, ty, val)
+                pats.append("(%s).to_le_bytes().to_vec()" % val)
+                sid += 1
+            if tail_rt:
+                el = members[-1]["ty"]["e"]
+                fld = members[-1]["name"]
+                body += "        let mut items = Vec::new();\n"
+                for i in range(kk):
+                    ecomps = []
+                    body += "        {\n            let mut eu = elem_of(unsafe { std::ptr::addr_of!((*mu.as_ptr()).%s) });\n            let eroot = eu.as_mut_ptr() as *mut u8;\n" % fld
+                    body += "            let e0 = unsafe { &*eu.as_ptr() };\n"
+                    _components(S, el, "0", "(*e0)", ecomps)
+                    for off, sc in ecomps:
+                        ty, val = SENT[sc](sid)
+                        body += "            unsafe { std::ptr::write_unaligned(eroot.add(%s) as *mut %s, %s); }\n" % (off, ty, val)
+                        pats.append("(%s).to_le_bytes().to_vec()" % val)
+                        sid += 1
+                    body += "            items.push(unsafe { eu.assume_init() });\n        }\n"
+                body += "        unsafe { std::ptr::write(std::ptr::addr_of_mut!((*mu.as_mut_ptr()).%s), items); }\n" % fld
+            body += "        let value = unsafe { mu.assume_init() };\n"
+            body += "        let pats: Vec<Vec<u8>> = vec![%s];\n" % ", ".join(pats)
+            writers = [("storage", "StorageBuffer")] + ([("uniform", "UniformBuffer")] if name in uniform_structs and not tail_rt else [])
+            for wk, ctor in writers:
+                body += "        {\n            let mut buf = encase::%s::new(Vec::<u8>::new());\n            buf.write(&value).unwrap();\n            let bytes = buf.into_inner();\n" % ctor
+                body += '            v.push(json!({"ev": "rt.encase", "struct": %s, "writer": "%s", "k": %d, "len": bytes.len() as i64, "positions": pats.iter().map(|p| find(&bytes, p)).collect::<Vec<_>>()}));\n        }\n' % (rust_str(name), wk, -1 if kk is None else kk)
+            body += "    }\n"
+    return HEAD + body + TAIL
